@@ -99,6 +99,23 @@ var c25Shapes = []string{
 	func(f func()) { f() }(func() {})`,
 	`fmt.Println(@A, /* inline */ @B) // trailing`,
 	`fmt.Printf("%c%c\n", 'a'+rune(@A%5), '$')`,
+	// lambda parameters named like builtins, variadic literals, statement calls that start with a parenthesis,
+	// calls whose closing parenthesis is on its own line
+	`each2(xs, func(i, echo int) { fmt.Println(i, echo) })`,
+	`each2(xs, func(printf, sprint int) {
+		fmt.Printf("%d %s\n", printf, fmt.Sprint(sprint))
+	})`,
+	`fmt.Println(countV(func(vs ...int) int { return len(vs) + @A }))`,
+	`(&S{Num: @A}).Inc(@B)`,
+	`(*(&xs))[0]++`,
+	`fmt.Println("a",
+		@A,
+	)`,
+	`fmt.Printf("%d %d\n",
+		@A, @B)`,
+	`twice(func(x int) int { return x + 1 },
+		@A,
+	)`,
 	// names declared in an if/for/switch header shadow in every branch of the statement
 	`if sprint := strings.Repeat("*", @A%3); sprint == "" {
 		fmt.Println("empty")
@@ -145,6 +162,7 @@ func c25Extra(r *fw.Rand) string {
 	}
 	b.WriteString("\tfmt.Println(xs)\n\tfmt.Println(describeStringer(S{Num: 1, Txt: \"t\"}), stringerOf(3))\n}\n\n")
 	// fmt named only in signatures (the import must survive the conversion)
+	b.WriteString("func each2(xs []int, f func(i, v int)) {\n\tfor i, x := range xs {\n\t\tf(i, x)\n\t}\n}\n\nfunc countV(f func(vs ...int) int) int { return f(1, 2, 3) }\n\n")
 	b.WriteString("func describeStringer(s fmt.Stringer) string { return \"<\" + s.String() + \">\" }\n\nfunc stringerOf(n int) fmt.Stringer { return S{Num: n} }\n\n")
 	return b.String()
 }
